@@ -493,6 +493,20 @@ def shard_pipeline(col, shape, max_mutants, lo, hi):
 
 
 # =========================================================================== real leg
+# Executor time-outs are wall-clock; the corpus (and its mutants) cannot loop, so every executor the
+# leg touches gets a budget no machine load can exhaust: time is not allowed to decide a verdict.
+GENEROUS_S = 120
+
+
+def _relax(executor):
+    """Give a (pynguin-built) executor the generous wall-clock budget."""
+    for attr in ("_maximum_test_execution_timeout", "_test_execution_time_per_statement"):
+        if not hasattr(executor, attr):
+            raise HarnessError(f"{type(executor).__name__} has no attribute {attr}")
+        setattr(executor, attr, GENEROUS_S)
+    return executor
+
+
 def _scratch():
     return tempfile.mkdtemp(prefix="c21_", dir="/dev/shm" if os.path.isdir("/dev/shm") else None)
 
@@ -587,7 +601,8 @@ class RealLeg:
         self.alias = get_module_alias(self.name)
         self.source = inspect.getsource(self.world.sut.module)
         self.pristine = create_module(ast.parse(self.source), self.name)
-        self.executor = self.world.sut.executor()
+        self.executor = self.world.sut.executor(maximum_test_execution_timeout=GENEROUS_S,
+                                                test_execution_time_per_statement=GENEROUS_S)
         self._mutants = {}
         self._pop = None
 
@@ -659,7 +674,9 @@ class RealLeg:
         import pynguin.assertion.assertiontraceobserver as ato
         import pynguin.testcase.execution as ex
 
-        mex = ex.TestCaseExecutor(self.executor.subject_properties.sharing_registries())
+        mex = ex.TestCaseExecutor(self.executor.subject_properties.sharing_registries(),
+                                  maximum_test_execution_timeout=GENEROUS_S,
+                                  test_execution_time_per_statement=GENEROUS_S)
         mex.add_remote_observer(ato.RemoteAssertionVerificationObserver())
         return mex
 
@@ -731,13 +748,18 @@ def run_real_case(col, leg, cfgname, choice_lists, shuffle, tests=None, cache=No
             seam = rng.installed(rng.ChoiceRNG(chooser))
         with seam, _recorded_stats(ag) as rec:
             if kind == "plain":
-                gen = ag.AssertionGenerator(leg.executor,
-                                            filtering_executor=ag.create_filtering_executor(leg.executor))
+                filt = ag.create_filtering_executor(leg.executor)
+                if filt is not None:
+                    _relax(filt)
+                gen = ag.AssertionGenerator(leg.executor, filtering_executor=filt)
             else:
                 import pynguin.generator as generator
 
                 gen = generator._setup_mutation_analysis_assertion_generator(leg.executor)  # noqa: SLF001
                 gen._testing = True  # noqa: SLF001  (keeps the summary for inspection)
+                _relax(gen._mutation_executor)  # noqa: SLF001
+                if gen._filtering_executor is not leg.executor:  # noqa: SLF001
+                    _relax(gen._filtering_executor)  # noqa: SLF001
                 snap = {}
                 real_handle = gen._handle_add_assertions  # noqa: SLF001
 
@@ -873,9 +895,13 @@ def run_real_case(col, leg, cfgname, choice_lists, shuffle, tests=None, cache=No
                           f"summary reports {metrics.num_killed_mutants} killed mutants, a fresh re-execution "
                           f"of the suite with the full assertion set on fresh mutants kills {len(pyn_killed)} "
                           f"(same kill definition)\n{code}", data, rank=rank)
+    timed_py = {info.mut_num for info in summary.get_timeout()}
+    col.count("mutants_timed_out_in_pynguin", len(timed_py))
     lost = []
     if nkept != nfull:
         for i in killed_f:
+            if i in timed_py:
+                continue  # pynguin discarded this mutant as timed out: ignored on both sides
             res = [leg.fails_on(mex, valid[i], t) for t in tests]
             col.count("mutant_executions", len(res))
             if any(r[1] for r in res):
